@@ -100,6 +100,10 @@ func (c *compiler) expandExpression(expr []token, line int) ([]token, error) {
 				val, valOk := c.values[tok.val]
 				if valOk {
 					output = append(output, val...)
+					if len(output) > maxExpressionTokens {
+						// stop before more is built than can be accepted
+						return nil, fmt.Errorf("expression expands to more than %d tokens", maxExpressionTokens)
+					}
 					continue
 				}
 
